@@ -354,7 +354,7 @@ def _run_case(case, ctx):
         # vs the first half; for square inputs the matrix vs its transpose): different points all the same
         big = torch.cat([x1, x2], dim=-2)
         big = big[..., torch.randperm(big.shape[-2], generator=g), :].contiguous()
-        if n1 == big.shape[-1] and not xb and case["seed"] % 2:
+        if n1 == big.shape[-1] and not xb and case["seed"] % 2 and spec["k"] not in ("hamming", "index", "cylindrical", "gskl"):  # (transposing needs unstructured rows)
             sq = big[:n1].contiguous()
             x1, x2 = sq, sq.transpose(-1, -2)
         else:
